@@ -29,16 +29,46 @@
 (* One action per public call:                                             *)
 (*   Call(s, xv, yv, idv)   slot s:  m(x, y, id)                           *)
 (*   Slice(t, s, sl)        slot t := m_s[start:stop:step]                 *)
+(*   TSlice(t, s, sl)       slot t := m_s[(slice(start,stop,step),)]       *)
+(*   Index(t, s, form, sel) slot t := m_s[sel]  for the other indexing     *)
+(*                          forms of __getitem__ (see "indexing forms")    *)
+(*   GetItem(s, i)          observe m_s[i], i an integer (no new object)   *)
 (*   Add(t, a, b)           slot t := m_a + m_b                            *)
 (*   Extend(a, b)           m_a.extend(m_b)      (a # b)                   *)
 (*   Prepend(a, b)          m_a.prepend(m_b)     (a # b)                   *)
 (*   SetItem(a, i, b)       m_a[i] = m_b         (a # b, 0 <= i < len)     *)
 (*                                                                         *)
+(* Indexing forms of Monitor.__getitem__ (one branch of the code each):    *)
+(*   integer (python int "item", numpy integer "npitem"), possibly < 0:    *)
+(*     the PAIR (x_i, y_i) with y_i the reported (un-scaled) cost;         *)
+(*   slice: Slice above;                                                   *)
+(*   list / numpy.ndarray (the numpy "fancy" branch), any of               *)
+(*     "ilist"  m[[i, j, ...]]        python list of ints                  *)
+(*     "iarray" m[array([i, j, ...])] numpy integer array                  *)
+(*     "imask"  m[array([T, F, ...])] numpy bool mask of length len(m)     *)
+(*     "lmask"  m[[T, F, ...]]        python list of bools, length len(m)  *)
+(*   tuple branch, the 1-tuples (a record selector and nothing else):      *)
+(*     "tlist" m[([i, ...],)]  "tarray" m[(array([i, ...]),)]              *)
+(*     "tmask" m[(array([T, ...]),)]   and TSlice m[(slice(a, b, c),)]     *)
+(* Every one of them except the integer creates a NEW monitor holding      *)
+(* exactly the selected records (x, STORED cost, id) in the order of the   *)
+(* selection -- any order, repeats, negative indices; a mask selects the   *)
+(* True positions in ascending order -- with the k of the indexed monitor, *)
+(* and leaves the indexed monitor as it was.  An index outside             *)
+(* -len..len-1 or a mask of another length raises (numpy IndexError): not  *)
+(* enabled here.  NOT modelled: tuples of length >= 2 (m[rows, cols]:      *)
+(* numpy multi-axis indexing INTO the parameter vectors, which C20's       *)
+(* "parameters unchanged" does not speak about; if the tuple's length is   *)
+(* not the array's rank the code silently uses its first element only) and *)
+(* the 1-tuple holding an integer (m[(i,)]: the code raises                *)
+(* AttributeError, an int has no .tolist()).                               *)
+(*                                                                         *)
 (* Where C20 is silent the spec follows the code and says so:              *)
-(*  * the result of `+` and of a slice carries the k of the LEFT operand / *)
-(*    the sliced monitor (deepcopy of self);  its stored costs are the     *)
-(*    argument's stored costs re-scaled by k_left / k_arg (Monitor._get_y),*)
-(*    so that the REPORTED costs are the argument's reported costs;        *)
+(*  * the result of `+` and of a slice / index carries the k of the LEFT   *)
+(*    operand / the indexed monitor (deepcopy of self);  what + / extend / *)
+(*    prepend store for the argument's records are the argument's stored   *)
+(*    costs re-scaled by k_left / k_arg (Monitor._get_y), so that the      *)
+(*    REPORTED costs are the argument's reported costs;                    *)
 (*  * m.extend(m) / m.prepend(m) are not modelled (the statement's "never  *)
 (*    alters the monitor passed to it" is contradictory for them);         *)
 (*  * __setitem__ is not named by C20.  The code splices the argument's    *)
@@ -57,16 +87,25 @@ EXTENDS Integers, Sequences, FiniteSets, TLC, Json
 CONSTANTS KPairs,   \* set of <<k1, k2>>: scaling factors of the two initial monitors
           Warms,    \* set of slot sequences: forced initial Calls (to populate the monitors)
           Free,     \* number of freely chosen operations after the warm-up
-          Slices,   \* set of <<start, stop, step>> offered to Slice (None allowed)
+          Slices,   \* set of <<start, stop, step>> offered to Slice / TSlice (None allowed)
+          Sels,     \* set of <<form, selection>> offered to Index (form in IndexForms)
+          Items,    \* set of integers offered to GetItem
           Ops       \* enabled operation names (subset of AllOps)
 
 None   == 1000
-AllOps == {"call", "slice", "add", "extend", "prepend", "setitem"}
+AllOps == {"call", "slice", "tslice", "index", "item", "add", "extend", "prepend", "setitem"}
+(* the concrete python shapes of an index (names of the hist entries; see header) *)
+ListForms  == {"ilist", "iarray", "tlist", "tarray"}     \* selection = sequence of ints, each in -n..n-1
+MaskForms  == {"imask", "lmask", "tmask"}                \* selection = sequence of n values 0/1 (False/True)
+IndexForms == ListForms \cup MaskForms
+ItemForms  == {"item", "npitem"}
 Slots  == {1, 2}
 Z3     == <<0, 0, 0>>
 
 ASSUME Ops \subseteq AllOps /\ Free \in Nat
 ASSUME \A kp \in KPairs : kp[1] \in {None, 1, 2, -1} /\ kp[2] \in {None, 1, 2, -1}
+ASSUME \A fs \in Sels : fs[1] \in IndexForms
+ASSUME Items \subseteq Int
 
 -----------------------------------------------------------------------------
 (* k handling: tools._kdiv / _multiply / _divide *)
@@ -91,6 +130,20 @@ PySlice(a, b, c, n) ==
   IN  [j \in 1..cnt |-> s + (j - 1) * st]
 
 Pick(q, idx) == [j \in 1..Len(idx) |-> q[idx[j] + 1]]
+
+(* numpy index semantics on the first axis of an array of length n.
+   Norm: a negative index counts from the end.  A selection is Valid if numpy accepts it (else
+   IndexError); Resolve gives the 0-based positions selected, in the order of the result *)
+Norm(i, n) == IF i < 0 THEN i + n ELSE i
+MaskIdx(mk) ==                               \* positions of the 1s, ascending
+  LET F[j \in 0..Len(mk)] == IF j = 0 THEN << >>
+                             ELSE IF mk[j] = 1 THEN Append(F[j - 1], j - 1) ELSE F[j - 1]
+  IN  F[Len(mk)]
+Valid(form, sel, n) ==
+  IF form \in MaskForms THEN Len(sel) = n /\ \A j \in 1..Len(sel) : sel[j] \in {0, 1}
+                        ELSE \A j \in 1..Len(sel) : sel[j] >= -n /\ sel[j] < n
+Resolve(form, sel, n) ==
+  IF form \in MaskForms THEN MaskIdx(sel) ELSE [j \in 1..Len(sel) |-> Norm(sel[j], n)]
 (* python  q[i:i+1] = r  for 0 <= i < len(q) *)
 Splice(q, i, r) == SubSeq(q, 1, i) \o r \o SubSeq(q, i + 2, Len(q))
 
@@ -141,6 +194,21 @@ Slice(t, s, sl) ==
   /\ slot' = [slot EXCEPT ![t] = Len(heap) + 1]
   /\ UNCHANGED rlog
 
+TSlice(t, s, sl) == Slice(t, s, sl)        \* m[(slice,)]: the tuple branch, same selection
+
+Index(t, s, form, sel) ==
+  LET n == Len(heap[slot[s]].x) IN
+  /\ Valid(form, sel, n)
+  /\ heap' = Append(heap, Sel(heap[slot[s]], Resolve(form, sel, n)))
+  /\ slot' = [slot EXCEPT ![t] = Len(heap) + 1]
+  /\ UNCHANGED rlog
+
+(* m[i], i an integer: an observation; ItemOf is the record whose (x, y) the pair has to be *)
+GetItem(s, i) ==
+  /\ i >= -Len(heap[slot[s]].x) /\ i < Len(heap[slot[s]].x)
+  /\ UNCHANGED <<heap, slot, rlog>>
+ItemOf(o, i) == Recs(o)[Norm(i, Len(o.x)) + 1]
+
 Add(t, a, b) ==
   /\ heap' = Append(heap, [Ext(heap[slot[a]], heap[slot[b]]) EXCEPT !.calls = 0])
   /\ slot' = [slot EXCEPT ![t] = Len(heap) + 1]
@@ -165,8 +233,10 @@ SetItem(a, i, b) ==
 
 -----------------------------------------------------------------------------
 (* script bookkeeping: a hist entry is
-   <<op, t, a, b, i, <<start,stop,step>>, <<x,y,id>>, obj, Recs(obj after the operation)>>
-   (unused positions are 0); obj is the heap index of the object written or created *)
+   <<op, t, a, b, i, <<start,stop,step>> or selection, <<x,y,id>>, obj, Recs(obj after the operation)>>
+   (unused positions are 0); obj is the heap index of the object written or created (GetItem: the
+   object looked at).  op is the action's name, for Index / GetItem the FORM of the index;
+   <<x,y,id>> is the record passed to Call, for GetItem the record m[i] has to be the (x, y) of *)
 Done  == Len(hist)
 Total == Len(warm) + Free
 H(op, t, a, b, i, sl, c, o) == hist' = Append(hist, <<op, t, a, b, i, sl, c, o, Recs(heap'[o])>>)
@@ -192,6 +262,15 @@ Next ==
        \/ /\ "slice" \in Ops
           /\ \E t \in Slots, s \in Slots, sl \in Slices :
                Slice(t, s, sl) /\ H("slice", t, s, 0, 0, sl, Z3, Len(heap) + 1)
+       \/ /\ "tslice" \in Ops
+          /\ \E t \in Slots, s \in Slots, sl \in Slices :
+               TSlice(t, s, sl) /\ H("tslice", t, s, 0, 0, sl, Z3, Len(heap) + 1)
+       \/ /\ "index" \in Ops
+          /\ \E t \in Slots, s \in Slots, fs \in Sels :
+               Index(t, s, fs[1], fs[2]) /\ H(fs[1], t, s, 0, 0, fs[2], Z3, Len(heap) + 1)
+       \/ /\ "item" \in Ops
+          /\ \E s \in Slots, f \in ItemForms, i \in Items :
+               GetItem(s, i) /\ H(f, 0, s, 0, i, Z3, ItemOf(heap[slot[s]], i), slot[s])
        \/ /\ "add" \in Ops
           /\ \E t \in Slots, a \in Slots, b \in Slots :
                Add(t, a, b) /\ H("add", t, a, b, 0, Z3, Z3, Len(heap) + 1)
@@ -236,15 +315,19 @@ IthRecord ==
   \A o \in Objs : heap[o].pure =>
      \A i \in 1..(Len(heap[o].x) - 1) : heap[o].x[i] < heap[o].x[i + 1]
 
-(* the two python variables never alias one object (every + / slice creates one) *)
+(* the two python variables never alias one object (every + / slice / index creates one) *)
 NoAlias == slot[1] # slot[2]
 
 (* ---- C20 as action properties ---- *)
-(* nothing but the receiver changes; + and slicing change no existing object at all;
+(* nothing but the receiver changes; +, slicing and every other form of indexing change no existing
+   object at all (the monitor indexed included) and all but the integer index create exactly one;
    in particular the ARGUMENT of + / extend / prepend / __setitem__ is left as it was *)
+Creating == {"add", "slice", "tslice"} \cup IndexForms        \* operations that return a new monitor
 ArgUnchanged ==
   [][LET e == hist'[Len(hist')] IN
-       /\ e[1] \in {"add", "slice"} => \A o \in Objs : heap'[o] = heap[o]
+       /\ e[1] \in Creating \cup ItemForms => \A o \in Objs : heap'[o] = heap[o]
+       /\ e[1] \in Creating => e[8] = Len(heap) + 1 /\ Len(heap') = Len(heap) + 1
+       /\ e[1] \notin Creating => Len(heap') = Len(heap)
        /\ e[1] \in {"extend", "prepend", "setitem"} => heap'[slot[e[4]]] = heap[slot[e[4]]]
        /\ e[1] = "add" => heap'[slot[e[3]]] = heap[slot[e[3]]] /\ heap'[slot[e[4]]] = heap[slot[e[4]]]
        /\ \A o \in Objs : o # e[8] => heap'[o] = heap[o]]_vars
@@ -258,9 +341,23 @@ ConcatOrder ==
        /\ e[1] = "add"     => new = Recs(heap[slot[e[3]]]) \o Recs(heap[slot[e[4]]])
        /\ e[1] = "extend"  => new = Recs(heap[e[8]]) \o Recs(heap[slot[e[4]]])
        /\ e[1] = "prepend" => new = Recs(heap[slot[e[4]]]) \o Recs(heap[e[8]])
-       /\ e[1] = "slice"   => LET src == Recs(heap[slot[e[3]]])
+       /\ e[1] \in {"slice", "tslice"} =>
+                              LET src == Recs(heap[slot[e[3]]])
                               IN  new = Pick(src, PySlice(e[6][1], e[6][2], e[6][3], Len(src)))
+       /\ e[1] \in IndexForms => LET src == Recs(heap[slot[e[3]]])
+                                 IN  new = Pick(src, Resolve(e[1], e[6], Len(src)))
+       /\ e[1] \in ItemForms  => LET src == Recs(heap[e[8]])
+                                 IN  /\ new = src
+                                     /\ e[7] = src[Norm(e[5], Len(src)) + 1]
        /\ e[1] = "setitem" => new = Splice(Recs(heap[e[8]]), e[5], Recs(heap[slot[e[4]]]))]_vars
+
+(* a list / array index gives one record per entry of the selection (order, repeats), a mask one
+   per True; the new monitor has the k of the monitor it was taken from (+: of the left operand) *)
+IndexShape ==
+  [][LET e == hist'[Len(hist')] IN
+       /\ e[1] \in ListForms => Len(heap'[e[8]].x) = Len(e[6])
+       /\ e[1] \in MaskForms => Len(heap'[e[8]].x) = Cardinality({j \in 1..Len(e[6]) : e[6][j] = 1})
+       /\ e[1] \in Creating  => heap'[e[8]].k = heap[slot[e[3]]].k]_vars
 
 (* ---- sanity of the slice definition itself (constant level) ---- *)
 SliceLens == 0..5
@@ -272,6 +369,19 @@ ASSUME \A n \in SliceLens :
                   st  == IF sl[3] = None THEN 1 ELSE sl[3]
               IN  /\ \A j \in 1..Len(idx) : idx[j] >= 0 /\ idx[j] < n
                   /\ \A j \in 1..(Len(idx) - 1) : idx[j + 1] - idx[j] = st
+
+(* ---- sanity of the index resolution itself (constant level) ---- *)
+ASSUME \A n \in SliceLens :
+         /\ \A f \in ListForms : Resolve(f, [j \in 1..n |-> j - 1], n) = [j \in 1..n |-> j - 1]
+         /\ \A f \in ListForms : Resolve(f, [j \in 1..n |-> -j], n) = [j \in 1..n |-> n - j]
+         /\ \A f \in MaskForms : /\ Resolve(f, [j \in 1..n |-> 1], n) = [j \in 1..n |-> j - 1]
+                                  /\ Resolve(f, [j \in 1..n |-> 0], n) = << >>
+         /\ \A fs \in Sels : Valid(fs[1], fs[2], n) =>
+              LET idx == Resolve(fs[1], fs[2], n)
+              IN  /\ \A j \in 1..Len(idx) : idx[j] >= 0 /\ idx[j] < n
+                  /\ fs[1] \in MaskForms =>
+                       /\ \A j \in 1..(Len(idx) - 1) : idx[j] < idx[j + 1]
+                       /\ \A p \in 0..(n - 1) : (fs[2][p + 1] = 1) <=> (\E j \in 1..Len(idx) : idx[j] = p)
 
 -----------------------------------------------------------------------------
 (* emission: one line per complete script *)
